@@ -136,7 +136,8 @@ def corruptions(base, nbytes, quick, r):
 def gen(ctx):
     r = ctx.rng
     A, G = [], []
-    kinds = [('int64', (2,)), ('>i2', (3, 2)), ('float32', (0,)), ('<c8', (2, 1, 2)), ('uint8', (0, 3))]
+    kinds = [('int64', (2,)), ('>i2', (3, 2)), ('float32', (0,)), ('uint8', (3,)), ('<c8', (2, 1, 2)), ('uint8', (0, 3)),
+             ('int8', (2, 2))]
     if ctx.quick:
         kinds = kinds[:4]
     for dtype, shape in kinds:
